@@ -256,34 +256,48 @@ def check_c07(trace, res: Result, hs: Hasher):
             res.probes["tick with a miss penalty"] += 1
         prev = (r[2], r[7] or 0, r[8] or 0, r[9] or 0, r[10] or 0)
 
-    # (1) retire tick of every instruction, on the prefix where retire addresses agree with REF
-    k = 0
-    agree = True
+    # (1) retire tick of every instruction.  The dynamic stream is the five-stage run's *own* retire
+    # sequence and the branch outcomes are the pipeline's own evaluations (comparison flag in the MEM
+    # latch): the documented schedule is a statement about timing, so a disagreement between the two
+    # modes about values or branch directions (C01 / C02) must not surface here.
+    prog = trace["prog"]
+    stream = []  # (addr, idx, redirect, is_ecall)
+    obs = []  # observed retire ticks
+    prev_mem = (None, None)
     for r in five["ticks"]:
-        if r[1] is None:
-            continue
-        if k >= n or r[1] != recs[k][0]:
-            agree = False  # a C02 matter, not re-reported here
-            break
-        if r[0] != W[k]:
-            res.violate("C07", "retire-tick", at=r[0], expected=W[k], got=r[0], retire_index=k, address=r[1],
-                        schedule={key: sch[key][max(0, k - 2): k + 1] for key in ("F", "D", "E", "X")})
+        if r[1] is not None:
+            idx = r[1] // 4
+            ins = prog[idx] if r[1] % 4 == 0 and 0 <= idx < len(prog) else None
+            if ins is None:
+                break
+            cls = ir.klass(ins)
+            cmp_ = prev_mem[1] if prev_mem[0] == r[1] else None
+            redirect = cls in ("jal", "jalr") or (cls == "branch" and bool(cmp_))
+            stream.append((r[1], idx, redirect, cls == "ecall"))
+            obs.append(r[0])
+        prev_mem = (r[17], r[18])
+    sch2 = schedule(stream, prog, True)
+    W2 = sch2["W"]
+    for k, t_obs in enumerate(obs):
+        if t_obs != W2[k]:
+            res.violate("C07", "retire-tick", at=t_obs, expected=W2[k], got=t_obs, retire_index=k, address=stream[k][0],
+                        schedule={key: sch2[key][max(0, k - 2): k + 1] for key in ("F", "D", "E", "X")})
             return
-        k += 1
-    if not agree or ref["capped"] or ref["exc"] or five["exc"] or not five["done"]:
-        res.probes["total-tick clause skipped (fault, cap or C02 disagreement)"] += 1
+    if five["exc"] or not five["done"]:
+        res.probes["total-tick clause skipped (fault or cap)"] += 1
         return
     total = len(five["ticks"])
-    want_total = W[-1] if n else 0
-    if k == n and total != want_total:
-        res.violate("C07", "total-ticks", expected=want_total, got=total, instructions=n)
+    want_total = W2[-1] if W2 else 0
+    if total != want_total:
+        res.violate("C07", "total-ticks", expected=want_total, got=total, instructions=len(stream))
         return
     # (2) n mutually independent straight-line instructions => n + 4
     if trace.get("plan", {}).get("shape") == "independent":
-        want = n + 4 if n else 0
+        nprog = len(prog)
+        want = nprog + 4 if nprog else 0
         res.probes["independent straight-line program"] += 1
-        if total != want or n != len(trace["prog"]):
-            res.violate("C07", "n-plus-4", expected=want, got=total, instructions=len(trace["prog"]))
+        if total != want:
+            res.violate("C07", "n-plus-4", expected=want, got=total, instructions=nprog)
 
 
 # ---------------------------------------------------------------------------
@@ -389,10 +403,24 @@ def check_c03p(trace, res: Result, hs: Hasher):
         res.discarded = "reference hit the step cap"
         return
     n = len(base["recs"])
+    first_crossing5 = []
+
+    def on_tick(sim, r):
+        # the same question for five-stage mode, from its own MEM latch (uncached run)
+        if first_crossing5:
+            return
+        pr = sim.state.pipeline.pipeline_registers[3]
+        a = pr.address_of_instruction
+        if a is not None and a % 4 == 0 and 0 <= a // 4 < len(prog):
+            ins = prog[a // 4]
+            if ir.klass(ins) in ("load", "store") and getattr(pr, "memory_address", None) is not None:
+                if (pr.memory_address & 3) + ir.WIDTH[ins[0]] > 4:
+                    first_crossing5.append(a)
+
     runs = {
         "single/off": base,
         "single/on": run_ref(trace, dc, None),
-        "five/off": run_five(trace, True, None, None, max_ticks=_tick_cap(n)),
+        "five/off": run_five(trace, True, None, None, max_ticks=_tick_cap(n), on_tick=on_tick),
         "five/on": run_five(trace, True, dc, None, max_ticks=_tick_cap(n)),
     }
     for name in ("five/off", "five/on"):
@@ -406,49 +434,41 @@ def check_c03p(trace, res: Result, hs: Hasher):
         res.faults[f"F-instr:{f['kind']}@{f['placement']}"] += 1
     excs = {k: v["exc"] for k, v in runs.items()}
     hs.add({k: (v and v["address"]) for k, v in excs.items()})
-    if first_crossing:
-        # the program performs a word-crossing access: with the cache on it must be rejected at that
-        # instruction, in both modes (unless the uncached run faults earlier anyway)
-        res.probes["program with a word-crossing access (cache on: rejected)"] += 1
-        want = first_crossing[0]
-        for name in ("single/on", "five/on"):
-            e = excs[name]
-            if not e or e["address"] != want:
-                if name == "five/on" and excs["five/off"] and not excs["single/off"]:
-                    return  # C02 matter
-                res.violate("C03", "crossing-access-not-rejected-at-its-instruction", expected=want,
-                            got=e and e["address"], configuration=name)
+    # a program that performs a word-crossing access: with the cache on it must be rejected at that
+    # instruction - decided per mode from that mode's own uncached run
+    pairs = []
+    for off, on, fc in (("single/off", "single/on", first_crossing), ("five/off", "five/on", first_crossing5)):
+        if fc:
+            res.probes["program with a word-crossing access (cache on: rejected)"] += 1
+            e = excs[on]
+            if not e or e["address"] != fc[0]:
+                res.violate("C03", "crossing-access-not-rejected-at-its-instruction", expected=fc[0],
+                            got=e and e["address"], configuration=on)
                 return
-        return
-    # no crossing access: the cache must be invisible
-    ref_exc = excs["single/off"]
-    for name in ("single/on", "five/off", "five/on"):
-        e = excs[name]
-        if (e and e["address"]) != (ref_exc and ref_exc["address"]):
-            if name == "five/off":
-                res.probes["five-stage/uncached disagrees with reference (C02 matter, not reported here)"] += 1
-                return
-            res.violate("C03", "fault-differs-with-cache", expected=ref_exc, got=e, configuration=name)
+        else:
+            pairs.append((off, on))
+    # no crossing access in that mode: the cache must be invisible there - cache on versus cache off
+    # *within each pipeline mode* (whether the two modes agree with each other is C02's business)
+    for off, on in pairs:
+        eo, en = excs[off], excs[on]
+        if (eo and eo["address"]) != (en and en["address"]):
+            res.violate("C03", "fault-differs-with-cache", expected=eo, got=en, configuration=on)
             return
-    if ref_exc:
-        res.probes["all four configurations fault at the same address"] += 1
-        return
-    for name in ("five/off", "five/on"):
-        if not runs[name]["done"]:
-            res.probes["five-stage run not done (C02 matter)"] += 1
+        if eo:
+            res.probes["configurations fault at the same address with and without the cache"] += 1
+            continue
+        if runs[off].get("done", True) != runs[on].get("done", True):
+            res.violate("C03", "termination-differs-with-cache", expected=runs[off].get("done"), got=runs[on].get("done"), configuration=on)
             return
-    a = summary(base["sim"])
-    off5 = summary(runs["five/off"]["sim"])
-    for name in ("single/on", "five/on"):
-        b = summary(runs[name]["sim"])
-        against = a
-        if name == "five/on" and any(off5[k] != a[k] for k in ("regs", "output", "exit_code")):
-            # the two uncached modes already disagree: that is C02's finding; compare cache on/off within five-stage mode
-            against = off5
-        if not _cmp_summaries(res, "C03", "result-differs-with-cache", against, b, ["regs", "output", "exit_code", "mem"], configuration=name):
+        if not runs[off].get("done", True):
+            res.probes["five-stage run not done within the tick cap (skipped)"] += 1
+            continue
+        a = summary(runs[off]["sim"])
+        b = summary(runs[on]["sim"])
+        if not _cmp_summaries(res, "C03", "result-differs-with-cache", a, b, ["regs", "output", "exit_code", "mem"], configuration=on):
             return
-    if nmem:
-        res.probes["program with loads/stores compared in four configurations"] += 1
+    if nmem and pairs:
+        res.probes["program with loads/stores compared with and without the cache"] += 1
 
 
 # ---------------------------------------------------------------------------
@@ -699,8 +719,11 @@ def check_c15p(trace, res: Result, hs: Hasher):
         if e["address"] not in b5 or e["repr"] != repr(b5.get(e["address"])):
             res.violate("C15", "runtime-error-instruction-text", expected=repr(b5.get(e["address"])), got=e["repr"], mode="five", address=e["address"])
             return
-        # the instruction that failed is the one single-cycle mode fails on
-        if ref["exc"] and e["address"] != ref["exc"]["address"]:
+        # the instruction that failed is the one single-cycle mode fails on - asserted only when the two
+        # modes executed the same instructions up to there (otherwise the disagreement is C02's)
+        retired = [r[1] for r in five["ticks"] if r[1] is not None]
+        same_path = retired == [rec[0] for rec in ref["recs"][: len(retired)]]
+        if ref["exc"] and same_path and len(ref["recs"]) - len(retired) <= 3 and e["address"] != ref["exc"]["address"]:
             res.violate("C15", "runtime-error-address", expected=ref["exc"]["address"], got=e["address"], mode="five")
             return
 
